@@ -29,6 +29,8 @@ var c08Steps = []hv.Step{
 func headTrialRecovered(prog []hv.Step) (class, obs, exp string) {
 	r := NewRouter(RouterCfg{}, mux.WithStatusRecovery(500))
 	r.Handle("/r", hv.Route("hp", prog...), nil, "GET")
+	r.Handle("/prime", hv.Route("hprime", hv.Step{Op: "Set", K: "X-Prime", V: "1"}, hv.Step{Op: "W", N: 3}, hv.Step{Op: "WH", N: 500}), nil, "GET")
+	hv.Serve(r, hv.Req{Method: "HEAD", Path: "/prime"}) // an unrelated earlier HEAD request: nothing of it may be left behind
 	g := hv.Serve(r, hv.Req{Method: "GET", Path: "/r"})
 	h := hv.Serve(r, hv.Req{Method: "HEAD", Path: "/r"})
 	if g.Paniced || h.Paniced {
